@@ -459,6 +459,37 @@ impl Fam for Vec<In1> {
         }
     }
 }
+impl Fam for std::collections::BTreeMap<i32, In1> {
+    fn build(it: &mut std::slice::Iter<'_, Cell>) -> Result<Self, String> {
+        let n = match it.next() {
+            Some(Some(b)) if b.len() == 1 => b[0] as usize,
+            _ => return Err("missing map count".into()),
+        };
+        (0..n).map(|_| Ok((i32::build(it)?, In1::build(it)?))).collect()
+    }
+    fn dump(&self, out: &mut Vec<Cell>) {
+        out.push(Some(vec![self.len() as u8]));
+        for (k, v) in self {
+            k.dump(out);
+            v.dump(out);
+        }
+    }
+}
+impl Fam for (i32, In1) {
+    fn build(it: &mut std::slice::Iter<'_, Cell>) -> Result<Self, String> {
+        Ok((i32::build(it)?, In1::build(it)?))
+    }
+    fn dump(&self, out: &mut Vec<Cell>) {
+        self.0.dump(out);
+        self.1.dump(out);
+    }
+}
+fam! { #[derive(SerializeValue, DeserializeValue)]
+struct N05 { a: i32, s: Vec<In1> } }
+fam! { #[derive(SerializeValue, DeserializeValue)]
+struct N06 { a: i32, m: std::collections::BTreeMap<i32, In1> } }
+fam! { #[derive(SerializeValue, DeserializeValue)]
+struct N07 { a: i32, t: (i32, In1) } }
 fam! { #[derive(SerializeValue, DeserializeValue)]
 struct N01 { a: i32, #[scylla(rename = "in")] inner: In1, c: String } }
 fam! { #[derive(SerializeValue, DeserializeValue)]
@@ -502,6 +533,15 @@ fn run_nv(id: &str, operm: &str, iperm: &str, flags: &str, vals: &[Cell]) -> Str
         "N02" => vec![a, ("o".to_string(), inner)],
         "N03" => vec![a, ("v".to_string(), list(inner))],
         "N04" => vec![a, ("inner".to_string(), inner)],
+        "N05" => vec![a, ("s".to_string(), ColumnType::Collection {
+            frozen: false,
+            typ: scylla_cql_core::frame::response::result::CollectionType::Set(Box::new(inner)),
+        })],
+        "N06" => vec![a, ("m".to_string(), ColumnType::Collection {
+            frozen: false,
+            typ: scylla_cql_core::frame::response::result::CollectionType::Map(Box::new(native("i")), Box::new(inner)),
+        })],
+        "N07" => vec![a, ("t".to_string(), ColumnType::Tuple(vec![native("i"), inner]))],
         "NR1" => vec![("k".to_string(), native("i")), ("u".to_string(), inner)],
         _ => return "error unknown-struct".into(),
     };
@@ -522,6 +562,9 @@ fn run_nv(id: &str, operm: &str, iperm: &str, flags: &str, vals: &[Cell]) -> Str
         "N01" => run_sv::<N01>(vals, &typ),
         "N02" => run_sv::<N02>(vals, &typ),
         "N03" => run_sv::<N03>(vals, &typ),
+        "N05" => run_sv::<N05>(vals, &typ),
+        "N06" => run_sv::<N06>(vals, &typ),
+        "N07" => run_sv::<N07>(vals, &typ),
         _ => run_sv::<N04>(vals, &typ),
     }
 }
@@ -1118,6 +1161,7 @@ fn native(t: &str) -> ColumnType<'static> {
     ColumnType::Native(match t {
         "i" => NativeType::Int,
         "t" => NativeType::Text,
+        "a" => NativeType::Ascii,
         "b" => NativeType::BigInt,
         _ => panic!("bad db type {t}"),
     })
@@ -1173,6 +1217,7 @@ fn decoded_specs(cols: &str, two_tables: bool) -> Result<(Vec<ColumnSpec<'static
                 let typ = match t {
                     "i" => CqlType::Int,
                     "t" => CqlType::Text,
+                    "a" => CqlType::Ascii,
                     _ => CqlType::BigInt,
                 };
                 // kind PT: the last column lives in another table, so no global table spec is sent
@@ -1291,7 +1336,7 @@ fn gen_db_cell(r: &mut Rng, dbty: &str, null: Option<bool>) -> Cell {
                 gen_val(r, 'i')
             }
         }
-        "t" => {
+        "t" | "a" => {
             if r.chance(1, 40) {
                 Some(vec![b'a', 0xff])
             } else {
@@ -1442,7 +1487,7 @@ impl Gen<'_> {
                     for pos in 0..=db.len() {
                         let mut d2 = db.clone();
                         let xn = self.extra_name(&sh, &db);
-                        d2.insert(pos, (xn, self.r.pick(&["i", "t", "b"]).to_string()));
+                        d2.insert(pos, (xn, self.r.pick(&["i", "t", "b", "a"]).to_string()));
                         self.cases_for_db(e, &sh, &d2, 1, false);
                     }
                 }
@@ -1469,7 +1514,7 @@ impl Gen<'_> {
                     d2.insert(pos, o[i].clone());
                     self.cases_for_db(e, &sh, &d2, 1, false);
                 }
-                for t in ["i", "t", "b"] {
+                for t in ["i", "t", "b", "a"] {
                     if t != o[i].1 {
                         let mut d2 = o.clone();
                         d2[i].1 = t.to_string();
@@ -1505,7 +1550,8 @@ impl Gen<'_> {
     /// kind NV: every order of the outer fields x every order of the inner fields x flag sets
     fn nested(&mut self, reps: usize) {
         let inner_perms: Vec<String> = permutations(&['0', '1', '2']).into_iter().map(|p| p.into_iter().collect()).collect();
-        for (id, nouter, ordered) in [("N01", 3usize, false), ("N02", 2, false), ("N03", 2, false), ("N04", 2, true), ("NR1", 2, false)] {
+        for (id, nouter, ordered) in [("N01", 3usize, false), ("N02", 2, false), ("N03", 2, false), ("N04", 2, true), ("NR1", 2, false),
+             ("N05", 2, false), ("N06", 2, false), ("N07", 2, false)] {
             let digits: Vec<char> = (0..nouter).map(|i| char::from_digit(i as u32, 10).unwrap()).collect();
             let outer_perms: Vec<String> = if ordered {
                 vec![digits.iter().collect()]
@@ -1534,12 +1580,26 @@ impl Gen<'_> {
                                         vals.extend(one(self));
                                     }
                                 }
-                                "N03" => {
-                                    let n = self.r.below(3) as u8;
+                                "N03" | "N05" => {
+                                    // N05: a set; one element at most (the set's element order is the server's business)
+                                    let n = if id == "N05" { self.r.below(2) as u8 } else { self.r.below(3) as u8 };
                                     vals.push(Some(vec![n]));
                                     for _ in 0..n {
                                         vals.extend(one(self));
                                     }
+                                }
+                                "N06" => {
+                                    // BTreeMap: keys strictly ascending so that dump order = build order
+                                    let n = self.r.below(3) as u8;
+                                    vals.push(Some(vec![n]));
+                                    for k in 0..n {
+                                        vals.push(Some((k as i32 * 7 - 3).to_be_bytes().to_vec()));
+                                        vals.extend(one(self));
+                                    }
+                                }
+                                "N07" => {
+                                    vals.push(gen_val(&mut self.r, 'i'));
+                                    vals.extend(one(self));
                                 }
                                 _ => vals.extend(one(self)),
                             }
@@ -1563,7 +1623,13 @@ impl Gen<'_> {
         let valid = self.r.chance(3, 5);
         for (n, t) in &sh.bound {
             if valid || !self.r.chance(1, 5) {
-                let ty = if !valid && self.r.chance(1, 10) { self.r.pick(&["i", "t", "b"]).to_string() } else { db_ty_of(*t).to_string() };
+                let ty = if !valid && self.r.chance(1, 10) {
+                    self.r.pick(&["i", "t", "b", "a"]).to_string()
+                } else if db_ty_of(*t) == "t" && self.r.chance(1, 4) {
+                    "a".to_string() // String also binds to an ascii column
+                } else {
+                    db_ty_of(*t).to_string()
+                };
                 db.push((n.clone(), ty));
             }
         }
@@ -1571,7 +1637,7 @@ impl Gen<'_> {
         for _ in 0..extras {
             let n = self.extra_name(&sh, &db);
             if !db.iter().any(|(m, _)| *m == n) || self.r.chance(1, 3) {
-                db.push((n, self.r.pick(&["i", "t", "b"]).to_string()));
+                db.push((n, self.r.pick(&["i", "t", "b", "a"]).to_string()));
             }
         }
         if !valid && self.r.chance(1, 12) && !db.is_empty() {
